@@ -256,13 +256,13 @@ theorem field_encode {sep tail rest : Bytes} {e : End} (hs : validSep sep = true
 
 /-! ### one record -/
 
-theorem joinFields_cons2 (sep f g : Bytes) (fs : List Bytes) :
-    joinFields sep (f :: g :: fs) = encodeField sep f ++ sep ++ joinFields sep (g :: fs) := by
-  simp [joinFields]
+theorem joinRaw_cons2 (sep f g : Bytes) (fs : List Bytes) :
+    joinRaw sep (f :: g :: fs) = encodeField sep f ++ sep ++ joinRaw sep (g :: fs) := by
+  simp [joinRaw]
 
-theorem fields_join {sep tail rest : Bytes} {e : End} (hs : validSep sep = true) (ht : Tail sep tail rest e)
+theorem fields_joinRaw {sep tail rest : Bytes} {e : End} (hs : validSep sep = true) (ht : Tail sep tail rest e)
     (he : e ≠ .sep) : ∀ (fs : List Bytes) (n : Nat), fs ≠ [] → (∀ f ∈ fs, 13 ∉ f) → fs.length ≤ n →
-    fieldsFuel sep n (joinFields sep fs ++ tail) = (fs, rest, e == .eof, false) := by
+    fieldsFuel sep n (joinRaw sep fs ++ tail) = (fs, rest, e == .eof, false) := by
   intro fs
   induction fs with
   | nil => intro n h; exact absurd rfl h
@@ -273,33 +273,33 @@ theorem fields_join {sep tail rest : Bytes} {e : End} (hs : validSep sep = true)
     | succ m =>
       cases fs with
       | nil =>
-        simp only [joinFields, fieldsFuel]
+        simp only [joinRaw, fieldsFuel]
         rw [field_encode hs ht f (h13 f (by simp))]
         cases e <;> simp at he ⊢
       | cons g fs' =>
-        rw [joinFields_cons2]
+        rw [joinRaw_cons2]
         simp only [List.append_assoc, fieldsFuel]
-        rw [field_encode hs (Tail.sep (sep := sep) (joinFields sep (g :: fs') ++ tail)) f (h13 f (by simp))]
+        rw [field_encode hs (Tail.sep (sep := sep) (joinRaw sep (g :: fs') ++ tail)) f (h13 f (by simp))]
         have := ih m (by simp) (fun x hx => h13 x (by simp [hx])) (by simp at hn ⊢; omega)
         simp [this]
 
-theorem joinFields_length {sep : Bytes} (hs : validSep sep = true) :
-    ∀ fs : List Bytes, fs.length ≤ (joinFields sep fs).length + 1 := by
+theorem joinRaw_length {sep : Bytes} (hs : validSep sep = true) :
+    ∀ fs : List Bytes, fs.length ≤ (joinRaw sep fs).length + 1 := by
   obtain ⟨h, t, rfl, -⟩ := validSep_cons hs
   intro fs
   induction fs with
   | nil => simp
   | cons f fs ih =>
     cases fs with
-    | nil => simp [joinFields]
+    | nil => simp [joinRaw]
     | cons g fs' =>
-      rw [joinFields_cons2]
+      rw [joinRaw_cons2]
       simp only [List.length_cons, List.length_append] at ih ⊢
       omega
 
 /-- a written record never starts with a line break, unless it is the single empty field -/
-theorem joinFields_head {sep : Bytes} (hs : validSep sep = true) (fs : List Bytes) (h1 : fs ≠ []) (h2 : fs ≠ [[]]) :
-    ∃ b t, joinFields sep fs = b :: t ∧ b ≠ 10 ∧ b ≠ 13 := by
+theorem joinRaw_head {sep : Bytes} (hs : validSep sep = true) (fs : List Bytes) (h1 : fs ≠ []) (h2 : fs ≠ [[]]) :
+    ∃ b t, joinRaw sep fs = b :: t ∧ b ≠ 10 ∧ b ≠ 13 := by
   obtain ⟨h, t, rfl, -, -, hh13, hh10, -⟩ := validSep_cons hs
   cases fs with
   | nil => exact absurd rfl h1
@@ -321,22 +321,57 @@ theorem joinFields_head {sep : Bytes} (hs : validSep sep = true) (fs : List Byte
     cases fs' with
     | nil =>
       rcases key with ⟨b, t', he, hb⟩ | ⟨hf, _⟩
-      · exact ⟨b, t', by simp [joinFields, he], hb⟩
+      · exact ⟨b, t', by simp [joinRaw, he], hb⟩
       · subst hf; exact absurd rfl h2
     | cons g fs'' =>
-      rw [joinFields_cons2]
+      rw [joinRaw_cons2]
       rcases key with ⟨b, t', he, hb⟩ | ⟨_, he⟩
-      · exact ⟨b, t' ++ ((h :: t) ++ joinFields (h :: t) (g :: fs'')), by rw [he]; simp, hb⟩
-      · exact ⟨h, t ++ joinFields (h :: t) (g :: fs''), by rw [he]; simp, hh10, hh13⟩
+      · exact ⟨b, t' ++ ((h :: t) ++ joinRaw (h :: t) (g :: fs'')), by rw [he]; simp, hb⟩
+      · exact ⟨h, t ++ joinRaw (h :: t) (g :: fs''), by rw [he]; simp, hh10, hh13⟩
+
+/-! ### `joinFields` = `joinRaw` except for the single empty field, which is written as `""` -/
+
+theorem joinFields_single_empty (sep : Bytes) : joinFields sep [[]] = [34, 34] := by simp [joinFields]
+
+theorem joinFields_of_ne {sep : Bytes} {fs : List Bytes} (h : fs ≠ [[]]) : joinFields sep fs = joinRaw sep fs := by
+  simp [joinFields, h]
+
+theorem fields_join {sep tail rest : Bytes} {e : End} (hs : validSep sep = true) (ht : Tail sep tail rest e)
+    (he : e ≠ .sep) (fs : List Bytes) (n : Nat) (h1 : fs ≠ []) (h13 : ∀ f ∈ fs, 13 ∉ f) (hn : fs.length ≤ n) :
+    fieldsFuel sep n (joinFields sep fs ++ tail) = (fs, rest, e == .eof, false) := by
+  by_cases h2 : fs = [[]]
+  · subst h2
+    cases n with
+    | zero => simp at hn
+    | succ m =>
+      rw [joinFields_single_empty]
+      simp only [List.cons_append, List.nil_append, fieldsFuel, field, if_true]
+      rw [quo_tail hs ht]
+      cases e <;> simp at he ⊢
+  · rw [joinFields_of_ne h2]
+    exact fields_joinRaw hs ht he fs n h1 h13 hn
+
+theorem joinFields_length {sep : Bytes} (hs : validSep sep = true) (fs : List Bytes) :
+    fs.length ≤ (joinFields sep fs).length + 1 := by
+  by_cases h2 : fs = [[]]
+  · subst h2; simp [joinFields]
+  · rw [joinFields_of_ne h2]; exact joinRaw_length hs fs
+
+/-- a written record never starts with a line break -/
+theorem joinFields_head {sep : Bytes} (hs : validSep sep = true) (fs : List Bytes) (h1 : fs ≠ []) :
+    ∃ b t, joinFields sep fs = b :: t ∧ b ≠ 10 ∧ b ≠ 13 := by
+  by_cases h2 : fs = [[]]
+  · subst h2; exact ⟨34, [34], by simp [joinFields], by decide, by decide⟩
+  · rw [joinFields_of_ne h2]; exact joinRaw_head hs fs h1 h2
 
 /-- one written record at the front of the input (ended by a line feed or by the end of the input) is read as exactly
 its fields, and reading continues after it -/
-theorem records_step_tail {cfg : Cfg} (hs : validSep cfg.sep = true) (cr : Bool) (fs : List Bytes) (h1 : fs ≠ []) (h2 : fs ≠ [[]])
+theorem records_step_tail {cfg : Cfg} (hs : validSep cfg.sep = true) (cr : Bool) (fs : List Bytes) (h1 : fs ≠ [])
     (h13 : ∀ f ∈ fs, 13 ∉ f) {tail rest : Bytes} {e : End} (ht : Tail cfg.sep tail rest e) (he : e ≠ .sep)
     (hc : cfg.comment = [] ∨ cfg.comment.isPrefixOf (joinFields cfg.sep fs ++ tail) = false) (n : Nat) :
     (recordsFuel cfg cr (n + 1) (joinFields cfg.sep fs ++ tail)).map Prod.fst =
       fs :: (recordsFuel cfg cr n rest).map Prod.fst := by
-  obtain ⟨b, t, hbt, hb10, hb13⟩ := joinFields_head hs fs h1 h2
+  obtain ⟨b, t, hbt, hb10, hb13⟩ := joinFields_head hs fs h1
   have hf := fields_join hs ht he fs
     ((joinFields cfg.sep fs ++ tail).length + 1) h1 h13
     (by have := joinFields_length hs fs; simp only [List.length_append]; omega)
@@ -351,14 +386,14 @@ theorem records_step_tail {cfg : Cfg} (hs : validSep cfg.sep = true) (cr : Bool)
   simp only [hne, if_false, hcm, hh, Option.some.injEq, hb10, hb13, false_and, hf]
   simp
 
-theorem records_step {cfg : Cfg} (hs : validSep cfg.sep = true) (cr : Bool) (fs : List Bytes) (h1 : fs ≠ []) (h2 : fs ≠ [[]])
+theorem records_step {cfg : Cfg} (hs : validSep cfg.sep = true) (cr : Bool) (fs : List Bytes) (h1 : fs ≠ [])
     (h13 : ∀ f ∈ fs, 13 ∉ f) (rest : Bytes)
     (hc : cfg.comment = [] ∨ cfg.comment.isPrefixOf (csvWrite cfg.sep fs ++ rest) = false) (n : Nat) :
     (recordsFuel cfg cr (n + 1) (csvWrite cfg.sep fs ++ rest)).map Prod.fst =
       fs :: (recordsFuel cfg cr n rest).map Prod.fst := by
   have hr : csvWrite cfg.sep fs ++ rest = joinFields cfg.sep fs ++ 10 :: rest := by simp [csvWrite]
   rw [hr] at hc ⊢
-  exact records_step_tail hs cr fs h1 h2 h13 (Tail.eol rest) (by simp) hc n
+  exact records_step_tail hs cr fs h1 h13 (Tail.eol rest) (by simp) hc n
 
 /-! ### whole outputs -/
 
@@ -374,7 +409,7 @@ def NoCommentStart (cfg : Cfg) (fss : List (List Bytes)) : Prop :=
   cfg.comment = [] ∨ ∀ fs ∈ fss, ∀ rest, cfg.comment.isPrefixOf (csvWrite cfg.sep fs ++ rest) = false
 
 theorem records_all {cfg : Cfg} (hs : validSep cfg.sep = true) (cr : Bool) :
-    ∀ (fss : List (List Bytes)), (∀ fs ∈ fss, fs ≠ [] ∧ fs ≠ [[]]) → (∀ fs ∈ fss, ∀ f ∈ fs, 13 ∉ f) →
+    ∀ (fss : List (List Bytes)), (∀ fs ∈ fss, fs ≠ []) → (∀ fs ∈ fss, ∀ f ∈ fs, 13 ∉ f) →
       NoCommentStart cfg fss → ∀ n, fss.length ≤ n →
       (recordsFuel cfg cr n (writeAll cfg.sep fss)).map Prod.fst = fss := by
   intro fss
@@ -396,7 +431,7 @@ theorem records_all {cfg : Cfg} (hs : validSep cfg.sep = true) (cr : Bool) :
         rcases hc with hc | hc
         · left; exact hc
         · right; intro x hx; exact hc x (by simp [hx])
-      rw [records_step hs cr fs (hne fs (by simp)).1 (hne fs (by simp)).2 (h13 fs (by simp)) _ hc1 m]
+      rw [records_step hs cr fs (hne fs (by simp)) (h13 fs (by simp)) _ hc1 m]
       rw [ih (fun x hx => hne x (by simp [hx])) (fun x hx => h13 x (by simp [hx])) hc2 m (by simp at hn; omega)]
 
 theorem writeAll_length (sep : Bytes) : ∀ fss : List (List Bytes), fss.length ≤ (writeAll sep fss).length := by
@@ -419,7 +454,7 @@ theorem writeAll_getLast (sep : Bytes) : ∀ fss : List (List Bytes), (writeAll 
     | some x => rw [hx] at ih; simpa using ih
 
 theorem csvRows_writeAll {cfg : Cfg} (hs : validSep cfg.sep = true) (fss : List (List Bytes))
-    (hne : ∀ fs ∈ fss, fs ≠ [] ∧ fs ≠ [[]]) (h13 : ∀ fs ∈ fss, ∀ f ∈ fs, 13 ∉ f) (hc : NoCommentStart cfg fss)
+    (hne : ∀ fs ∈ fss, fs ≠ []) (h13 : ∀ fs ∈ fss, ∀ f ∈ fs, 13 ∉ f) (hc : NoCommentStart cfg fss)
     (hb : bom.isPrefixOf (writeAll cfg.sep fss) = false) :
     (csvRows cfg (writeAll cfg.sep fss)).map Prod.fst = fss := by
   unfold csvRows dropBOM dropFinalCR
@@ -454,28 +489,34 @@ theorem encodeField_no13 (sep f : Bytes) (h : 13 ∉ f) : 13 ∉ encodeField sep
   · simp only [Bool.not_eq_true] at hq
     simp [hq, h]
 
-theorem joinFields_no13 {sep : Bytes} (hs : validSep sep = true) :
-    ∀ fs : List Bytes, (∀ f ∈ fs, 13 ∉ f) → 13 ∉ joinFields sep fs := by
+theorem joinRaw_no13 {sep : Bytes} (hs : validSep sep = true) :
+    ∀ fs : List Bytes, (∀ f ∈ fs, 13 ∉ f) → 13 ∉ joinRaw sep fs := by
   intro fs
   induction fs with
-  | nil => simp [joinFields]
+  | nil => simp [joinRaw]
   | cons f fs ih =>
     intro h
     cases fs with
-    | nil => simpa [joinFields] using encodeField_no13 sep f (h f (by simp))
+    | nil => simpa [joinRaw] using encodeField_no13 sep f (h f (by simp))
     | cons g fs' =>
-      rw [joinFields_cons2]
+      rw [joinRaw_cons2]
       have a := encodeField_no13 sep f (h f (by simp))
       have b := sep_no13 hs
       have c := ih (fun x hx => h x (by simp [hx]))
       simp only [List.mem_append, not_or]
       exact ⟨⟨a, b⟩, c⟩
 
+theorem joinFields_no13 {sep : Bytes} (hs : validSep sep = true) (fs : List Bytes) (h : ∀ f ∈ fs, 13 ∉ f) :
+    13 ∉ joinFields sep fs := by
+  by_cases h2 : fs = [[]]
+  · subst h2; simp [joinFields]
+  · rw [joinFields_of_ne h2]; exact joinRaw_no13 hs fs h
+
 theorem getLast_ne_of_not_mem {l : Bytes} {b : UInt8} (h : b ∉ l) : l.getLast? ≠ some b := by
   intro hl
   exact h (List.mem_of_getLast? hl)
 
-theorem reparse_joinFields {cfg : Cfg} (hs : validSep cfg.sep = true) (fs : List Bytes) (h1 : fs ≠ []) (h2 : fs ≠ [[]])
+theorem reparse_joinFields {cfg : Cfg} (hs : validSep cfg.sep = true) (fs : List Bytes) (h1 : fs ≠ [])
     (h13 : ∀ f ∈ fs, 13 ∉ f)
     (hc : cfg.comment = [] ∨ cfg.comment.isPrefixOf (joinFields cfg.sep fs) = false)
     (hb : bom.isPrefixOf (joinFields cfg.sep fs) = false) :
@@ -484,7 +525,7 @@ theorem reparse_joinFields {cfg : Cfg} (hs : validSep cfg.sep = true) (fs : List
   have hl := getLast_ne_of_not_mem (joinFields_no13 hs fs h13)
   simp only [hb, Bool.false_eq_true, if_false, hl]
   have hs' : validSep ({ cfg with header := false } : Cfg).sep = true := hs
-  have := records_step_tail (cfg := { cfg with header := false }) hs' false fs h1 h2 h13 Tail.eof (by simp)
+  have := records_step_tail (cfg := { cfg with header := false }) hs' false fs h1 h13 Tail.eof (by simp)
     (by simpa using hc) (joinFields cfg.sep fs).length
   simp only [List.append_nil] at this
   generalize recordsFuel { cfg with header := false } false ((joinFields cfg.sep fs).length + 1) (joinFields cfg.sep fs) = l at this
